@@ -3,6 +3,8 @@
 // Contracts for package ipfslog (log.go, log_io.go), checked by /verif (govc). Comment-only.
 package ipfslog
 
+import "berty.tech/go-ipfs-log/iface"
+
 // ---- vocabulary ----
 // om(m): the concrete ordered map behind an interface value (closed world: *entry.OrderedMap is the only implementation)
 //@ define om(m iface.IPFSLogOrderedEntries) = m.(*entry.OrderedMap)
@@ -311,6 +313,32 @@ package ipfslog
 //@     loopmodifies chanof(output)
 
 // ---- difference (C01, C06): entries of A reachable from A's heads that the log does not have yet ----
+// ---- difference (C01/C02, facet wf): what the walk from the source heads collects ----
+// diffSeeds: every source head that is new to the log (and of its log id) was collected
+//@ define diffSeeds(A iface.IPFSLogOrderedEntries, hs []iface.IPFSLogEntry, B *IPFSLog, res iface.IPFSLogOrderedEntries) = forall i int :: 0 <= i && i < len(hs) ==> has(omv(res), ehash(hs[i])) || !has(omv(A), ehash(hs[i])) || has(ent(B), ehash(hs[i])) || omv(A)[ehash(hs[i])].LogID != B.ID
+// diffDown: every predecessor of a collected entry is in the log already, collected too, or not available in the source
+//@ define diffDown(A iface.IPFSLogOrderedEntries, B *IPFSLog, res iface.IPFSLogOrderedEntries) = forall k string, j int :: has(omv(res), k) && 0 <= j && j < len(omv(res)[k].Next) ==> has(ent(B), str(omv(res)[k].Next[j])) || has(omv(res), str(omv(res)[k].Next[j])) || !has(omv(A), str(omv(res)[k].Next[j])) || omv(A)[str(omv(res)[k].Next[j])].LogID != B.ID
+// connectedUp: every source entry is a source head or is named by a source entry of higher rank (heads exactness of the source)
+//@ define connectedUp(A iface.IPFSLogOrderedEntries, hs []iface.IPFSLogEntry) = forall x string :: has(omv(A), x) ==> (exists i int :: 0 <= i && i < len(hs) && ehash(hs[i]) == x) || (exists p string, j int :: has(omv(A), p) && 0 <= j && j < len(omv(A)[p].Next) && str(omv(A)[p].Next[j]) == x && rank(p) > rank(x))
+// sameLinks: the two logs hold the same predecessor list for the same hash (content addressing); oneID: one log id
+//@ define sameLinks(A iface.IPFSLogOrderedEntries, B *IPFSLog) = forall k string :: has(omv(A), k) && has(ent(B), k) ==> sameCids(omv(A)[k].Next, ent(B)[k].Next)
+//@ define oneID(A iface.IPFSLogOrderedEntries, id string) = forall k string :: has(omv(A), k) ==> omv(A)[k].LogID == id
+//@ define subMap(res iface.IPFSLogOrderedEntries, A iface.IPFSLogOrderedEntries) = forall k string :: has(omv(res), k) ==> has(omv(A), k) && omv(res)[k] == omv(A)[k]
+
+// Completeness of the walk, by induction from the heads downward (measure: distance of the rank from its bound): a source
+// entry missing from the log is a head (collected as a seed) or is named by a higher-ranked source entry, which is not in
+// the log either (the log is predecessor-closed), hence collected by induction, hence its predecessors were visited.
+//@ func verifLemmaDifferenceComplete
+//@   lemma
+//@   induction x by rankMax() - rank(x)
+//@   requires validEntries(entriesA) && validEntries(res) && logB != nil && validEntries(logB.Entries)
+//@   requires subMap(res, entriesA) && diffSeeds(entriesA, headsA, logB, res) && diffDown(entriesA, logB, res)
+//@   requires connectedUp(entriesA, headsA) && closedLog(logB) && sameLinks(entriesA, logB) && oneID(entriesA, logB.ID)
+//@   requires has(omv(entriesA), x) && !has(ent(logB), x)
+//@   ensures [every-missing-source-entry-is-collected] has(omv(res), x)
+func verifLemmaDifferenceComplete(entriesA iface.IPFSLogOrderedEntries, headsA []iface.IPFSLogEntry, logB *IPFSLog, res iface.IPFSLogOrderedEntries, x string) {
+}
+
 //@ func difference
 //@   requires validEntries(entriesA) && validSlice(headsA)
 //@   requires logB == nil || validEntries(logB.Entries)
@@ -318,11 +346,20 @@ package ipfslog
 //@   ensures validEntries(result) && fresh(result) && fresh(om(result).values) && freshKeys(om(result))
 //@   ensures [difference-yields-new-entries-of-this-log-id] logB != nil ==> forall k string :: has(om(result).values, k) ==> has(om(entriesA).values, k) && om(result).values[k] == om(entriesA).values[k] && !has(om(logB.Entries).values, k) && om(result).values[k].LogID == logB.ID
 //@   ensures logB == nil ==> len(om(result).keys) == 0
+//@ @wf ensures [difference-collects-new-source-heads] logB != nil ==> diffSeeds(entriesA, headsA, logB, result)
+//@ @wf ensures [difference-follows-every-available-predecessor] logB != nil ==> diffDown(entriesA, logB, result)
+//@ @wf uselemma verifLemmaDifferenceComplete(entriesA, headsA, logB, result, _)
+//@ @wf ensures [difference-is-complete] logB != nil && connectedUp(entriesA, headsA) && closedLog(logB) && sameLinks(entriesA, logB) && oneID(entriesA, logB.ID) ==> forall x string :: has(omv(entriesA), x) && !has(ent(logB), x) ==> has(omv(result), x)
 //@   lockensures held[om(result).lock] == 0
 //@   loop 0
 //@     invariant fresh(stack) && off(stack) == 0 && len(stack) == len(headsA)
+//@ @wf invariant forall i int :: 0 <= i && i < $k ==> stack[i] == ehash(headsA[i])
 //@   loop 1
 //@     invariant validEntries(res)
+//@ @wf invariant [traversed-hashes-are-new-to-the-log] forall n string :: has(traversed, n) ==> !has(ent(logB), n)
+//@ @wf invariant [traversed-hashes-are-collected-pending-or-unavailable] forall n string :: has(traversed, n) ==> has(omv(res), n) || (exists i int :: 0 <= i && i < len(stack) && stack[i] == n) || !has(omv(entriesA), n) || omv(entriesA)[n].LogID != logB.ID
+//@ @wf invariant [predecessors-of-collected-entries-are-known-or-traversed] forall k string, j int :: has(omv(res), k) && 0 <= j && j < len(omv(res)[k].Next) ==> has(ent(logB), str(omv(res)[k].Next[j])) || has(traversed, str(omv(res)[k].Next[j]))
+//@ @wf invariant [source-heads-are-collected-pending-or-not-new] forall i int :: 0 <= i && i < len(headsA) ==> has(omv(res), ehash(headsA[i])) || (exists q int :: 0 <= q && q < len(stack) && stack[q] == ehash(headsA[i])) || !has(omv(entriesA), ehash(headsA[i])) || has(ent(logB), ehash(headsA[i])) || omv(entriesA)[ehash(headsA[i])].LogID != logB.ID
 //@     invariant fresh(res) && fresh(om(res).values) && freshKeys(om(res)) && fresh(traversed)
 //@     invariant stack == nil || fresh(stack)
 //@     invariant forall k string :: has(om(res).values, k) ==> has(om(entriesA).values, k) && om(res).values[k] == om(entriesA).values[k] && !has(om(logB.Entries).values, k) && om(res).values[k].LogID == logB.ID
@@ -334,6 +371,12 @@ package ipfslog
 //@     invariant stack == nil || fresh(stack)
 //@     invariant forall k string :: has(om(res).values, k) ==> has(om(entriesA).values, k) && om(res).values[k] == om(entriesA).values[k] && !has(om(logB.Entries).values, k) && om(res).values[k].LogID == logB.ID
 //@     invariant validEntry(eA)
+//@ @wf invariant has(omv(res), hash) && omv(res)[hash] == eA && has(traversed, hash) && !has(ent(logB), hash)
+//@ @wf invariant [traversed-hashes-are-new-to-the-log] forall n string :: has(traversed, n) ==> !has(ent(logB), n)
+//@ @wf invariant [traversed-hashes-are-collected-pending-or-unavailable] forall n string :: has(traversed, n) ==> has(omv(res), n) || (exists i int :: 0 <= i && i < len(stack) && stack[i] == n) || !has(omv(entriesA), n) || omv(entriesA)[n].LogID != logB.ID
+//@ @wf invariant [predecessors-of-collected-entries-are-known-or-traversed] forall k string, j int :: has(omv(res), k) && k != hash && 0 <= j && j < len(omv(res)[k].Next) ==> has(ent(logB), str(omv(res)[k].Next[j])) || has(traversed, str(omv(res)[k].Next[j]))
+//@ @wf invariant [seen-predecessors-of-the-current-entry-are-known-or-traversed] forall j int :: 0 <= j && j < $k ==> has(ent(logB), str(eA.Next[j])) || has(traversed, str(eA.Next[j]))
+//@ @wf invariant [source-heads-are-collected-pending-or-not-new] forall i int :: 0 <= i && i < len(headsA) ==> has(omv(res), ehash(headsA[i])) || (exists q int :: 0 <= q && q < len(stack) && stack[q] == ehash(headsA[i])) || !has(omv(entriesA), ehash(headsA[i])) || has(ent(logB), ehash(headsA[i])) || omv(entriesA)[ehash(headsA[i])].LogID != logB.ID
 //@     lockinvariant held[om(res).lock] == 0
 //@     loopfresh
 
@@ -347,11 +390,13 @@ package ipfslog
 //@   ensures [new-log-establishes-the-invariant] err == nil ==> result0 != nil && fresh(result0) && logInv(result0) && result0.Identity == identity
 //@   ensures [new-log-blocks-are-stored] err == nil && options != nil && old(options.Entries) != nil && (forall k string :: has(om(old(options.Entries)).values, k) ==> stored[om(old(options.Entries)).values[k].Hash]) && (forall i int :: 0 <= i && i < old(len(options.Heads)) ==> stored[old(options.Heads[i]).Hash]) && old(len(options.Heads)) > 0 ==> storedLog(result0)
 //@   ensures [new-log-holds-the-given-entries] err == nil && options != nil && old(options.Entries) != nil ==> forall k string :: has(om(result0.Entries).values, k) == has(om(old(options.Entries)).values, k) && (has(om(old(options.Entries)).values, k) ==> om(result0.Entries).values[k] == om(old(options.Entries)).values[k])
+//@ @wf ensures [new-empty-log-is-well-formed] err == nil && (options == nil || (old(options.Entries) == nil && old(len(options.Heads)) == 0)) ==> wfLog(result0) && headsExact(result0) && len(om(result0.Entries).keys) == 0
 //@   lockensures err == nil ==> held[result0.lock] == 0
 //@   loop 0
 //@     invariant isOM(next)
 //@     invariant fresh(next) && fresh(om(next).values) && freshKeys(om(next))
 //@     invariant options != nil && validEntries(options.Entries)
+//@ @wf invariant len(om(options.Entries).keys) == 0 ==> len(om(next).keys) == 0
 //@     lockinvariant held[om(next).lock] == 0
 //@     loopmodifies om(next).keys, mapof(om(next).values)
 //@   loop 1
